@@ -108,11 +108,12 @@ def W.requireAccepted (w : W) : Option Exc :=
   | .accepted => none
 
 /-- `accept(subprotocol, headers)` -/
-def W.accept (w : W) (disc : Option Int) (headers : Bool) (sub : Bool) (badSub : Bool) : W × Option Exc :=
+def W.accept (w : W) (disc : Option Int) (headers : Bool) (sub : Bool) (badSub : Bool) (hdrExc : Option Exc) : W × Option Exc :=
   if w.isClosed disc then (w, some .notAllowed) else
   if w.st != .handshake then (w, some .notAllowed) else
   if badSub then (w, some .valueOther) else
   if headers && !w.supHeaders then (w, some .notAllowed) else
+  if headers && hdrExc.isSome then (w, hdrExc) else
   match w.send_ disc (.accept headers sub) with
   | (w, none) => ({ w with st := .accepted }, none)
   | r => r
@@ -210,11 +211,17 @@ def W.recv {D : Type} (h : Handlers D) (w : W) (k : RecvKind) : W × Except Exc 
     | (w, .error e) => (w, .error e)
     | (w, .ok (t, b)) => (w, decode h k t b)
 
+/-- a `receive_*()` that parks (no event available) and is cancelled there: see `Ws.W.recvAbandoned` -/
+def W.recvAbandoned (w : W) (_k : RecvKind) : W × Option Exc :=
+  match w.requireAccepted with
+  | some e => (w, some e)
+  | none => if w.pumpStopped then (w, some .assertion) else (w, none)
+
 /-- one step of a responder / middleware / error-handler script -/
 inductive Op (D : Type) where
-  | accept (headers : Bool) (sub : Bool) (badSub : Bool) | close (arg : CodeArg) (reason : Bool)
+  | accept (headers : Bool) (sub : Bool) (badSub : Bool) (hdrExc : Option Exc) | close (arg : CodeArg) (reason : Bool)
   | sendText (p : Text) | sendData (p : Bytes) | sendMedia (d : D) (ty : PType)
-  | recv (k : RecvKind)
+  | recv (k : RecvKind) | recvAbandoned (k : RecvKind)
   | raiseHttp (status : Int) | raiseStatus (status : Int) | raiseExc | raiseBoom
   | raiseOf (e : Exc)     -- an exception of a framework class raised by the script itself / by an operation on another connection
 
@@ -223,12 +230,13 @@ def outOf {D : Type} : Option Exc → Out D
   | some e => .error e
 
 def W.op {D : Type} (h : Handlers D) (w : W) (disc : Option Int) : Op D → W × Out D
-  | .accept hd s b => let r := w.accept disc hd s b; (r.1, outOf r.2)
+  | .accept hd s b he => let r := w.accept disc hd s b he; (r.1, outOf r.2)
   | .close a r => let r := w.close disc a r; (r.1, outOf r.2)
   | .sendText p => let r := w.sendText disc p; (r.1, outOf r.2)
   | .sendData p => let r := w.sendData disc p; (r.1, outOf r.2)
   | .sendMedia d ty => let r := w.sendMedia h disc d ty; (r.1, outOf r.2)
   | .recv k => let r := w.recv h k; (r.1, r.2.map some)
+  | .recvAbandoned k => let r := w.recvAbandoned k; (r.1, outOf r.2)
   | .raiseHttp s => (w, .error (.httpError s))
   | .raiseStatus s => (w, .error (.httpStatus s))
   | .raiseExc => (w, .error .pyErr)
@@ -332,13 +340,14 @@ def proj {D : Type} (h : Handlers D) (binOk : Bool) (w : W) : Ws.W :=
     buffered := w.buffered, pumpStopped := w.pumpStopped, inbox := w.inbox.map (projIn h) }
 
 def projOp {D : Type} : Op D → Ws.Op
-  | .accept hd s b => .accept hd s b
+  | .accept hd s b he => .accept hd s b he
   | .close a r => .close a r
   | .sendText _ => .send .text
   | .sendData _ => .send .bytes
   | .sendMedia _ .text => .send .text
   | .sendMedia _ .binary => .send .bytes
   | .recv k => .recv k
+  | .recvAbandoned k => .recvAbandoned k
   | .raiseHttp s => .raiseHttp s
   | .raiseStatus s => .raiseStatus s
   | .raiseExc => .raiseExc
